@@ -3,7 +3,8 @@
    version-2 and version-3 dumps (through a counting reader with a read budget and a watchdog). *)
 From Coq Require Import ZArith NArith Arith List Bool.
 From Kd Require Import theories.Base theories.Kevent gen.GenKevent theories.Container theories.ContainerV2
-  theories.ContainerV3 theories.Pairing theories.PairingProofs theories.Cli.
+  theories.ContainerV3 theories.Pairing theories.PairingProofs theories.Cli
+  gen.GenCli theories.CliRefine.
 Import ListNotations.
 Open Scope N_scope.
 
@@ -54,3 +55,16 @@ Example c06_nontrivial :
   map (fun k => length (o_events (parse (fun _ => true) (firstn k ([0; 2; 170; 85] ++ body)))))
       [0; 3; 200; 291; 354; 355; 418; 419]%nat = [0; 0; 0; 0; 0; 1; 1; 2]%nat.
 Proof. vm_compute. reflexivity. Qed.
+
+(* the command line is the code's: the counting loop of print_with_count as tools/translate/tr_cli.py reads it off __main__.py
+   (initial index, step, test before print) is the model's pwc - so c06_count above speaks about the code's loop -, every
+   command prints the listing and assigns its options to the parser settings the command-line correspondence is written for,
+   and the options have the defaults it assumes (no limit, no filter, colour on) *)
+Theorem c06_code_print_with_count : forall (A : Type) count (l : list A),
+  pwc_p gen_pwc_step count gen_pwc_init l = Cli.pwc count 0%Z l.
+Proof. intros A count l. apply pwc_code_refines. Qed.
+Theorem c06_code_cli_commands : map norm_cmd gen_commands = cli_contract.
+Proof. exact commands_refine. Qed.
+Theorem c06_code_cli_options :
+  map (fun o => match o with (n, (_, t, d, m)) => (n, (t, d, m)) end) gen_options = option_contract.
+Proof. exact options_refine. Qed.
